@@ -120,6 +120,24 @@ def run_case(rng, tier, case):
     if rng.random() < 0.5:
         r.out = out2
         case.feature('prices_from_second_extraction')
+    # the price table is indexed by the grid's own time points (one row per step, unambiguous)
+    if prices is not None and len(prices.columns) > 0:
+        idx_ok = len(prices.index) == len(times) and not prices.index.has_duplicates and all(pd.Timestamp(a_) == pd.Timestamp(b_) for a_, b_ in zip(prices.index, times))
+        case.check('price.table_indexed_by_grid_points', bool(idx_ok), n_rows=len(prices.index), T=len(times), duplicates=bool(prices.index.has_duplicates),
+                   first=[str(x) for x in prices.index[:2]], grid_first=[str(x) for x in times[:2]])
+        if not idx_ok:
+            return
+    if split and rng.random() < 0.5:
+        # the split problem optimised again on the same object (another run after a change of a right-hand side, a check of an earlier result): the
+        # value of that run is the optimum again - not the earlier run's value carried along
+        try:
+            with env.quiet(), attach.paused():
+                res_again = r.op.optimize()
+            if not isinstance(res_again, str):
+                case.check('price.split_reoptimised_value_same', abs(float(res_again.value) - V0) <= 2e-5 * (1 + abs(V0)) and len(np.asarray(res_again.x)) == len(np.asarray(r.res.x)),
+                           first=V0, second=float(res_again.value), n_first=len(np.asarray(r.res.x)), n_second=len(np.asarray(res_again.x)))
+        except Exception as e:
+            case.check('price.split_reoptimised_value_same', False, error='%s: %s' % (type(e).__name__, str(e)[:160]))
     # every nodal row has a reported price
     col_ok = prices is not None and len(prices.columns) > 0
     missing = []
